@@ -216,16 +216,25 @@ theorem c09_warm (rt rt' : Runtime) (hwf : WF rt) (h : restart .warm rt = .ok rt
    fun p d v0 hp hd hi hr => c09_warm_program_vars_reset rt rt' hwf h p hp d hd v0 hi hr⟩
 
 /-- **Reset clause.**  After any restart: time zero, fault latch cleared, cycle counter zero, no
-frames, every task state is `TaskState::new(0)`; declarations, I/O images and bindings, access
-bindings, task table and retain configuration are untouched. -/
+frames, every task's scheduling state is what `register_task` would give for the re-initialised
+storage (`last_single` seeded from the SINGLE variable, `last_run = 0`, no overruns);
+declarations, bindings, access bindings, task table and retain configuration are untouched.
+**Process images:** `restart(Warm)` leaves the %I/%Q/%M images exactly as they were (outputs keep
+their last values until the next publish, %M-bound variables are reloaded from the marker image
+at the next latch); `restart(Cold)` zeroes all three. -/
 theorem c09_restart_resets (mode : Mode) (rt rt' : Runtime) (h : restart mode rt = .ok rt') :
     rt'.time = 0 ∧ rt'.fault = none ∧ rt'.cycleCounter = 0 ∧ rt'.storage.frames = 0 ∧
-    rt'.taskState = rt.taskState.map (fun _ => newTaskState 0) ∧
+    rt'.taskState = rt.tasks.map (fun t => registerTaskState rt'.storage 0 t.single) ∧
     rt'.globalsMeta = rt.globalsMeta ∧ rt'.fbs = rt.fbs ∧ rt'.programs = rt.programs ∧
-    rt'.tasks = rt.tasks ∧ rt'.io = rt.io ∧ rt'.access = rt.access ∧ rt'.retain = rt.retain := by
+    rt'.tasks = rt.tasks ∧ rt'.io.bindings = rt.io.bindings ∧ rt'.access = rt.access ∧
+    rt'.retain = rt.retain ∧
+    (mode = .warm → rt'.io = rt.io) ∧ (mode = .cold → rt'.io = rt.io.zeroImages) := by
   obtain ⟨s1, s2, _, _, h3⟩ := restart_decompose mode rt rt' h
   subst h3
-  simp
+  refine ⟨rfl, rfl, rfl, rfl, rfl, rfl, rfl, rfl, rfl, ?_, rfl, rfl, ?_, ?_⟩
+  · cases mode <;> simp [Mode.isWarm, Io.zeroImages]
+  · intro hm; subst hm; simp [Mode.isWarm]
+  · intro hm; subst hm; simp [Mode.isWarm]
 
 /-! ## Power cycle with a retain store (save, new process, load) -/
 
@@ -282,6 +291,39 @@ value 7 — the retain snapshot covers globals only. -/
 theorem c09_counterexample_power_cycle :
     W.warm3 = some (some 9, some 2) ∧ W.power3 = some (some 7, some 2) := by decide
 
+/-! ## Warm restart followed by `load_retain_store` (the resource loop's restart step) -/
+
+/-- **Warm restart + load, partial (guard: the store was saved from the very state that is
+restarted).**  `scheduler.rs` and `TestHarness::restart_with_retain` run `restart(mode)` and then
+`load_retain_store()`.  If the file holds the snapshot of `rt` itself, the load after
+`restart(Warm)` changes no declared global: the warm clause survives the reload. -/
+theorem c09_warm_restart_load_partial (rt rt' : Runtime) (disk : Disk) (hwf : WF rt)
+    (h : restart .warm rt = .ok rt') (hstore : rt.retain.isSome)
+    (m : GlobalMeta) (hm : m ∈ rt.globalsMeta) :
+    (loadRetainStore rt' (saveRetainStore rt disk)).storage.getGlobal m.name =
+      rt'.storage.getGlobal m.name := by
+  obtain ⟨_, _, _, _, _, hmeta, _, _, _, _, _, hret, _⟩ := c09_restart_resets .warm rt rt' h
+  rw [c09_power_cycle_globals_partial rt rt' disk hstore (by rw [hret]; exact hstore) hmeta
+    hwf.globalsNodup m hm]
+  by_cases hr : retainOnWarm m.retain = true
+  · simp only [hr, if_true]
+    cases hg : rt.storage.getGlobal m.name with
+    | none => simp [Option.filter]
+    | some v =>
+      by_cases hv : v.retainable = true
+      · simp only [Option.filter, hv, if_true]
+        exact (c09_warm_globals_kept rt rt' hwf h m hm hr v hg).symm
+      · simp [Option.filter, hv]
+  · have hr' : retainOnWarm m.retain = false := by simpa using hr
+    simp [hr']
+
+/-- **Warm restart + load, counterexample (stale file).**  Witness 7: RETAIN global `gr`
+incremented every cycle; the file was saved after the first cycle (`gr = 1`); three cycles later
+`gr = 4`.  `restart(Warm)` alone keeps 4; `restart(Warm)` followed by `load_retain_store` — what
+the resource loop does on a restart request, without saving first — rolls `gr` back to 1. -/
+theorem c09_counterexample_warm_rollback :
+    W.rollback7 = some (some 4, some 4, some 1) := by decide
+
 /-! ## Bindings stay connected -/
 
 /-- **Bindings clause, partial (guard: every I/O, VAR_ACCESS and task-FB reference is rooted in a
@@ -311,17 +353,18 @@ theorem c09_counterexample_bindings :
 
 /-! ## Cold restart versus a freshly built runtime: the clauses the code violates -/
 
-/-- **Cold = fresh, counterexample (task state).**  Witness 1: the SINGLE variable is initially
-TRUE.  A fresh runtime seeds `last_single = TRUE`, so the event task never fires (`runs = 0` after a
-cycle); after cycle + `restart(Cold)` the next cycle sees a rising edge (`runs = 1`). -/
-theorem c09_counterexample_last_single :
-    W.run1 = some (some 1) ∧ W.fresh1 = some (some 0) := by decide
+/-- **Regression witness (task state; fixed in /repo 5436414).**  Witness 1: the SINGLE variable
+is initially TRUE.  A fresh runtime seeds `last_single = TRUE`, so the event task never fires; since
+the fix a restart seeds it the same way, so cycle + `restart(Cold)` + cycle also leaves `runs = 0`.
+(The harness replays this project as case 1; a divergence there is a violation.) -/
+theorem c09_witness_last_single_agrees :
+    W.run1 = some (some 0) ∧ W.fresh1 = some (some 0) := by decide
 
-/-- **Cold = fresh, counterexample (process images).**  Witness 2: a `%MW0`-bound counter: after
-three cycles and `restart(Cold)` the next cycle yields 4 (reloaded from the stale marker image), a
-fresh runtime yields 1. -/
-theorem c09_counterexample_images :
-    W.run2 = some (some 4) ∧ W.fresh2 = some (some 1) := by decide
+/-- **Regression witness (process images; fixed in /repo d6c1b45).**  Witness 2: a `%MW0`-bound
+counter: three cycles, `restart(Cold)`, one cycle yields 1, exactly as a fresh runtime (the marker
+image is zeroed; before the fix the stale image gave 4). -/
+theorem c09_witness_images_agrees :
+    W.run2 = some (some 1) ∧ W.fresh2 = some (some 1) := by decide
 
 /-- **Cold = fresh, counterexample (VAR_CONFIG values).**  Witness 5: the build applies
 `VAR_CONFIG P0.w := 300`; `restart(Cold)` re-initialises `w` to the POU's initial value 0. -/
@@ -339,24 +382,25 @@ theorem c09_counterexample_fb_member :
 /-! ## Cold restart = freshly built runtime, under the guards -/
 
 /-- **Cold = fresh, partial.**  Let `fr` be the runtime built from `src` and `rt` ANY runtime of the
-same project (same declarations; `WF`: what the compiler guarantees about names).  Guards: no
-VAR_CONFIG values (`hci`), SINGLE initial values FALSE (`hsingle`).  Then after `restart(Cold)`:
+same project (same declarations and task table; `WF`: what the compiler guarantees about names;
+`hsdecl`: every SINGLE variable is a declared global, which the scheduler requires anyway).
+Remaining guard: no VAR_CONFIG values (`hci`).  Then after `restart(Cold)`:
 
 * every declared global, every program variable and every member of every FB instance they hold
   shows — observed by path, instance ids hidden — exactly what it shows in the fresh runtime;
-* time, fault latch, cycle counter, frame count and every task's scheduling state are the fresh
-  ones;
-* if the %Q and %M images were zero before the restart they are the fresh images.
+* time, fault latch, cycle counter, frame count and every task's scheduling state (including the
+  `last_single` edge detector, whatever the SINGLE variable's initial value) are the fresh ones;
+* the %I, %Q and %M images read as the fresh (all-zero) images at every address.
 
 This is the state every subsequent cycle reads (`cycle` reads nothing else besides the bindings,
-covered by `c09_bindings_live_partial`, and the %I image, which belongs to the environment).
-That equal observations yield equal outputs for every continuation is checked by the twin run of
-the correspondence, not proved. -/
+covered by `c09_bindings_live_partial`).  That equal observations yield equal outputs for every
+continuation is checked by the twin run of the correspondence, not proved. -/
 theorem c09_cold_fresh_partial (src : Source) (fr rt rt' : Runtime)
     (hbuild : build src = some fr) (hci : src.configInits = [])
-    (hsame : rt.globalsMeta = fr.globalsMeta ∧ rt.programs = fr.programs ∧ rt.fbs = fr.fbs)
+    (hsame : rt.globalsMeta = fr.globalsMeta ∧ rt.programs = fr.programs ∧ rt.fbs = fr.fbs ∧
+      rt.tasks = fr.tasks)
     (hwf : WF rt) (hpl : PlainInits rt.globalsMeta rt.programs)
-    (hsingle : SingleInitFalse src fr) (hlen : rt.taskState.length = src.tasks.length)
+    (hsdecl : ∀ t n, t ∈ src.tasks → t.single = some n → ∃ m, m ∈ rt.globalsMeta ∧ m.name = n)
     (h : restart .cold rt = .ok rt') :
     (∀ m member, m ∈ rt.globalsMeta →
       rt'.readGlobalPath m.name member = fr.readGlobalPath m.name member) ∧
@@ -364,23 +408,25 @@ theorem c09_cold_fresh_partial (src : Source) (fr rt rt' : Runtime)
       rt'.readProgPath p.name d.name member = fr.readProgPath p.name d.name member) ∧
     rt'.time = fr.time ∧ rt'.fault = fr.fault ∧ rt'.cycleCounter = fr.cycleCounter ∧
     rt'.storage.frames = fr.storage.frames ∧ rt'.taskState = fr.taskState ∧
-    (rt.io.outputs = [] → rt.io.memory = [] →
-      rt'.io.outputs = fr.io.outputs ∧ rt'.io.memory = fr.io.memory) := by
-  obtain ⟨hm, hp, hf⟩ := hsame
+    (∀ i, byteAt rt'.io.inputs i = byteAt fr.io.inputs i ∧
+          byteAt rt'.io.outputs i = byteAt fr.io.outputs i ∧
+          byteAt rt'.io.memory i = byteAt fr.io.memory i) := by
+  obtain ⟨hm, hp, hf, htk⟩ := hsame
   have hnd : (src.globals.map (·.name)).Nodup := by
     have := hwf.globalsNodup
     obtain ⟨_, _, _, _, _, b4, _⟩ := build_spec_meta src fr hbuild
     rw [hm, b4] at this
     simpa [List.map_map, GlobalDecl.toMeta, Function.comp_def] using this
-  obtain ⟨f1, f2, b1, b2, b3, b4, b5, b6, b7, b8, b9, b10, b11, b12, b13⟩ :=
+  obtain ⟨f1, f2, b1, b2, b3, b4, b5, b6, b7, b8, b9, b10, b11, b12, b13, b14⟩ :=
     build_spec src fr hbuild hci hnd
   obtain ⟨s1, s2, r1, r2, r3⟩ := restart_decompose .cold rt rt' h
   have hret : retainedOf .cold rt = [] := by simp [retainedOf, Mode.isWarm]
   have hpv : retainedPvOf .cold rt = [] := by simp [retainedPvOf, Mode.isWarm]
   rw [hret] at r1
   simp only [Mode.isWarm] at r1
-  have hst : rt'.storage = { s2 with frames := 0 } := by
-    rw [r3, hpv]; simp [restoreProgVars]
+  rw [hpv] at r3
+  simp only [restoreProgVars] at r3
+  have hst : rt'.storage = { s2 with frames := 0 } := by rw [r3]
   -- both storages come out of the same two loops
   have cr := cold_paths rt.fbs rt.globalsMeta rt.programs rt.storage s1 s2 r1 r2
     hwf.globalsNodup hwf.progsNodup hwf.varsNodup hwf.disjoint hpl
@@ -389,12 +435,10 @@ theorem c09_cold_fresh_partial (src : Source) (fr rt rt' : Runtime)
     hwf.globalsNodup hwf.progsNodup hwf.varsNodup hwf.disjoint hpl
   have hframes : fr.storage.frames = 0 := by
     rw [b3]
-    have hb1 := b1
-    have hb2 := b2
     have hnd' : ((src.globals.map GlobalDecl.toMeta).map (·.name)).Nodup := by
       simpa [List.map_map, GlobalDecl.toMeta, Function.comp_def] using hnd
-    obtain ⟨i1, _, _⟩ := resetGlobals_spec _ _ _ _ _ _ hb1 hnd'
-    have i2 := (recreatePrograms_spec _ _ _ _ hb2 (by rw [← b6, ← hp]; exact hwf.progsNodup)
+    obtain ⟨i1, _, _⟩ := resetGlobals_spec _ _ _ _ _ _ b1 hnd'
+    have i2 := (recreatePrograms_spec _ _ _ _ b2 (by rw [← b6, ← hp]; exact hwf.progsNodup)
       (by rw [← b6, ← hp]; exact hwf.varsNodup)).1
     rw [i2.frames, i1.frames]
   refine ⟨?_, ?_, ?_, ?_, ?_, ?_, ?_, ?_⟩
@@ -408,18 +452,31 @@ theorem c09_cold_fresh_partial (src : Source) (fr rt rt' : Runtime)
   · rw [r3, b8]
   · rw [r3, b9]
   · rw [hst, hframes]
-  · rw [r3, b10]
+  · -- task states: same seeding function, and the SINGLE globals show the same value
+    rw [r3, b10]
     simp only
-    apply List.ext_getElem
-    · simp [hlen]
-    · intro i h1 h2
-      simp only [List.getElem_map]
-      have := hsingle (src.tasks[i]'(by simpa using h2)) (List.getElem_mem _)
-      rw [b3] at this
-      exact this.symm
-  · intro ho hmem
-    rw [r3, b12, b13]
-    exact ⟨ho, hmem⟩
+    have e1 : rt.tasks.map (fun t => registerTaskState s2 0 t.single) =
+        (rt.tasks.map (·.single)).map (registerTaskState s2 0) := by
+      simp [List.map_map, Function.comp_def]
+    have e2 : src.tasks.map (fun t => registerTaskState f2 0 t.single) =
+        (src.tasks.map (·.single)).map (registerTaskState f2 0) := by
+      simp [List.map_map, Function.comp_def]
+    rw [e1, e2, htk, b14]
+    apply List.map_congr_left
+    intro sg hsg
+    obtain ⟨t, ht, rfl⟩ := List.mem_map.1 hsg
+    apply registerTaskState_congr
+    intro n hn
+    obtain ⟨m, hmm, rfl⟩ := hsdecl t n ht hn
+    have a := cr.1 m none hmm
+    have b := cf.1 m none hmm
+    unfold readGP at a b
+    simp only at a b
+    rw [a, b]
+  · intro i
+    rw [r3, b11, b12, b13]
+    simp only [Mode.isWarm, Bool.false_eq_true, if_false, Io.zeroImages, byteAt_zero_map]
+    simp [byteAt]
 
 /-- **Instances that existed before a restart are never touched by it.**  In particular a
 RETAIN/PERSISTENT FB-typed global keeps (by `c09_warm_globals_kept`) its instance handle AND the
@@ -447,25 +504,30 @@ example :
   · exact ⟨W.rt6.programs[0]'(by decide), (W.rt6.programs[0]'(by decide)).vars[0]'(by decide),
       List.getElem_mem _, List.getElem_mem _, by decide, by decide⟩
 
-/-- The guards of `c09_cold_fresh_partial` are satisfiable: witness 6, state after two cycles. -/
+/-- The hypotheses of `c09_cold_fresh_partial` are satisfiable: witness 6 (SINGLE variable
+initially TRUE), state after two cycles. -/
 example :
     build W.src6 = some W.fr6 ∧ W.src6.configInits = [] ∧
-    (W.rt6.globalsMeta = W.fr6.globalsMeta ∧ W.rt6.programs = W.fr6.programs ∧ W.rt6.fbs = W.fr6.fbs) ∧
-    WF W.rt6 ∧ PlainInits W.rt6.globalsMeta W.rt6.programs ∧ SingleInitFalse W.src6 W.fr6 ∧
-    W.rt6.taskState.length = W.src6.tasks.length ∧ (restart .cold W.rt6).toOption.isSome = true ∧
+    (W.rt6.globalsMeta = W.fr6.globalsMeta ∧ W.rt6.programs = W.fr6.programs ∧ W.rt6.fbs = W.fr6.fbs ∧
+      W.rt6.tasks = W.fr6.tasks) ∧
+    WF W.rt6 ∧ PlainInits W.rt6.globalsMeta W.rt6.programs ∧
+    (∀ t n, t ∈ W.src6.tasks → t.single = some n → ∃ m, m ∈ W.rt6.globalsMeta ∧ m.name = n) ∧
+    (restart .cold W.rt6).toOption.isSome = true ∧
     (∀ r, r ∈ W.rt6.bindingRefs → r.loc = .global) := by
   have hb : build W.src6 = some W.fr6 := by
     unfold W.fr6
     cases h : build W.src6 with
     | none => exact absurd h (by decide)
     | some fr => rfl
-  have hs : SingleInitFalse W.src6 W.fr6 := by
-    intro t ht
+  have hs : ∀ t n, t ∈ W.src6.tasks → t.single = some n → ∃ m, m ∈ W.rt6.globalsMeta ∧ m.name = n := by
+    intro t n ht hn
     simp only [W.src6, List.mem_singleton] at ht
     subst ht
-    decide
-  exact ⟨hb, rfl, ⟨rfl, rfl, rfl⟩, ⟨by decide, by decide, by decide, by decide⟩, ⟨by decide, by decide⟩, hs,
-    by decide, by decide, by decide⟩
+    simp only [Option.some.injEq] at hn
+    subst hn
+    exact ⟨W.rt6.globalsMeta[0]'(by decide), List.getElem_mem _, by decide⟩
+  exact ⟨hb, rfl, ⟨rfl, rfl, rfl, rfl⟩, ⟨by decide, by decide, by decide, by decide⟩,
+    ⟨by decide, by decide⟩, hs, by decide, by decide⟩
 
 /-- The hypotheses of `c09_power_cycle_globals_partial` are satisfiable (witness 3 with a store). -/
 example :
